@@ -295,27 +295,25 @@ def exprDoc : GExpr → Doc
   | .field f _ obj => exprDoc obj ++ sym "." ++ ident f
   | .index _ arr idx => exprDoc arr ++ sym "[" ++ exprDoc idx ++ sym "]"
   | .cast ty e => exprDoc e ++ sym "." ++ sym "(" ++ typeDoc ty ++ sym ")"
-  | .slit ty fields =>
+  | .slit ty [] => toksDoc (typeNameToks ty) ++ sym "{" ++ sym "}"
+  | .slit ty (f :: fs) =>
       toksDoc (typeNameToks ty) ++ sym "{" ++
-        (match fields with
-         | [] => .nil
-         | _ :: _ => nestD Gen.GoPrintTables.nestAmount (.hardline ++ intersperse .hardline (fieldDocs fields) ++ .hardline)) ++
-        sym "}"
+        nestD Gen.GoPrintTables.nestAmount (.hardline ++ intersperse .hardline (fieldDocs (f :: fs)) ++ .hardline) ++ sym "}"
   | .alit ty elems =>
       (match ty with
        | .array len e => sym "[" ++ tokD (.num (toString len)) ++ sym "]" ++ typeDoc e
        | .slice e => sym "[" ++ sym "]" ++ typeDoc e
        | _ => panicTok) ++
         sym "{" ++ intersperse (sym "," ++ .sp) (exprDocs elems) ++ sym "}"
-  | .blocke _ stmts e =>
-      let stmtsDoc := match stmts with
-        | [] => Doc.nil
-        | _ :: _ => intersperse .hardline (stmtDocs stmts) ++ (if e.isSome then .hardline else .nil)
-      let content := match stmts, e with
-        | [], none => Doc.nil
-        | _, none => nestD Gen.GoPrintTables.nestAmount (.hardline ++ stmtsDoc ++ .nil ++ .hardline)
-        | _, some x => nestD Gen.GoPrintTables.nestAmount (.hardline ++ stmtsDoc ++ exprDoc x ++ .hardline)
-      sym "{" ++ content ++ sym "}"
+  -- `Expr::Block` (never produced for a value position by the back end; not a Go expression):
+  -- `{` nest(hardline, stmts joined by hardline, hardline if an expression follows, the expression, hardline) `}`
+  | .blocke _ [] none => sym "{" ++ sym "}"
+  | .blocke _ [] (some x) => sym "{" ++ nestD Gen.GoPrintTables.nestAmount (.hardline ++ exprDoc x ++ .hardline) ++ sym "}"
+  | .blocke _ (s :: ss) none =>
+      sym "{" ++ nestD Gen.GoPrintTables.nestAmount (.hardline ++ intersperse .hardline (stmtDoc s :: stmtDocs ss) ++ .hardline) ++ sym "}"
+  | .blocke _ (s :: ss) (some x) =>
+      sym "{" ++ nestD Gen.GoPrintTables.nestAmount
+        (.hardline ++ (intersperse .hardline (stmtDoc s :: stmtDocs ss) ++ .hardline) ++ exprDoc x ++ .hardline) ++ sym "}"
 def exprDocs : List GExpr → List Doc
   | [] => []
   | e :: es => exprDoc e :: exprDocs es
@@ -326,48 +324,43 @@ def fieldDocs : List GField → List Doc
 def stmtDoc : GStmt → Doc
   | .expr e => exprDoc e
   | .go call => kw "go" ++ .sp ++ exprDoc call
-  | .varDecl x ty v =>
-      let d := kw "var" ++ .sp ++ ident x ++ .sp ++ typeDoc ty
-      (match v with
-       | some v => d ++ .sp ++ sym "=" ++ .sp ++ exprDoc v
-       | none => d)
+  | .varDecl x ty (some v) => kw "var" ++ .sp ++ ident x ++ .sp ++ typeDoc ty ++ .sp ++ sym "=" ++ .sp ++ exprDoc v
+  | .varDecl x ty none => kw "var" ++ .sp ++ ident x ++ .sp ++ typeDoc ty
   | .assign x v => ident x ++ .sp ++ sym "=" ++ .sp ++ exprDoc v
   | .fieldAssign t v => exprDoc t ++ .sp ++ sym "=" ++ .sp ++ exprDoc v
   | .ptrAssign p v => sym "*" ++ exprDoc p ++ .sp ++ sym "=" ++ .sp ++ exprDoc v
   | .indexAssign a i v => exprDoc a ++ sym "[" ++ exprDoc i ++ sym "]" ++ .sp ++ sym "=" ++ .sp ++ exprDoc v
-  | .ret e =>
-      (match e with
-       | some e => kw "return" ++ .sp ++ exprDoc e
-       | none => kw "return")
-  | .loop body =>
+  | .ret (some e) => kw "return" ++ .sp ++ exprDoc e
+  | .ret none => kw "return"
+  | .loop [] => kw "for" ++ .sp ++ sym "{" ++ sym "}"
+  | .loop (s :: ss) =>
       kw "for" ++ .sp ++ sym "{" ++
-        (match body with
-         | [] => .nil
-         | _ :: _ => nestD Gen.GoPrintTables.nestAmount (.hardline ++ intersperse .hardline (stmtDocs body)) ++ .hardline) ++
-        sym "}"
+        (nestD Gen.GoPrintTables.nestAmount (.hardline ++ intersperse .hardline (stmtDoc s :: stmtDocs ss)) ++ .hardline) ++ sym "}"
   | .brk => kw "break"
-  | .ite c t e =>
-      let ifPart := kw "if" ++ .sp ++ exprDoc c ++ .sp ++ blockDoc t
-      (match e with
-       | some eb => ifPart ++ .sp ++ kw "else" ++ .sp ++ blockDoc eb
-       | none => ifPart)
-  | .switch e cases dflt =>
+  | .ite c t (some eb) => kw "if" ++ .sp ++ exprDoc c ++ .sp ++ blockDoc t ++ .sp ++ kw "else" ++ .sp ++ blockDoc eb
+  | .ite c t none => kw "if" ++ .sp ++ exprDoc c ++ .sp ++ blockDoc t
+  | .switch e cases (some blk) =>
       kw "switch" ++ .sp ++ exprDoc e ++ .sp ++ sym "{" ++ .hardline ++ intersperse .hardline (caseDocs cases) ++
-        (match dflt with
-         | some blk => .hardline ++ kw "default" ++ sym ":" ++ caseBody blk
-         | none => .nil) ++
+        (.hardline ++ kw "default" ++ sym ":" ++ caseBody blk) ++ .hardline ++ sym "}"
+  | .switch e cases none =>
+      kw "switch" ++ .sp ++ exprDoc e ++ .sp ++ sym "{" ++ .hardline ++ intersperse .hardline (caseDocs cases) ++
         .hardline ++ sym "}"
-  | .tswitch bind e cases dflt =>
-      kw "switch" ++ .sp ++
-        (match bind with
-         | some b => ident b ++ .sp ++ sym ":=" ++ .sp
-         | none => .nil) ++
+  | .tswitch (some b) e cases (some blk) =>
+      kw "switch" ++ .sp ++ (ident b ++ .sp ++ sym ":=" ++ .sp) ++
         exprDoc e ++ sym "." ++ sym "(" ++ kw "type" ++ sym ")" ++ .sp ++ sym "{" ++ .hardline ++
-        intersperse .hardline (tcaseDocs cases) ++
-        (match dflt with
-         | some blk => .hardline ++ kw "default" ++ sym ":" ++ caseBody blk
-         | none => .nil) ++
-        .hardline ++ sym "}"
+        intersperse .hardline (tcaseDocs cases) ++ (.hardline ++ kw "default" ++ sym ":" ++ caseBody blk) ++ .hardline ++ sym "}"
+  | .tswitch (some b) e cases none =>
+      kw "switch" ++ .sp ++ (ident b ++ .sp ++ sym ":=" ++ .sp) ++
+        exprDoc e ++ sym "." ++ sym "(" ++ kw "type" ++ sym ")" ++ .sp ++ sym "{" ++ .hardline ++
+        intersperse .hardline (tcaseDocs cases) ++ .hardline ++ sym "}"
+  | .tswitch none e cases (some blk) =>
+      kw "switch" ++ .sp ++
+        exprDoc e ++ sym "." ++ sym "(" ++ kw "type" ++ sym ")" ++ .sp ++ sym "{" ++ .hardline ++
+        intersperse .hardline (tcaseDocs cases) ++ (.hardline ++ kw "default" ++ sym ":" ++ caseBody blk) ++ .hardline ++ sym "}"
+  | .tswitch none e cases none =>
+      kw "switch" ++ .sp ++
+        exprDoc e ++ sym "." ++ sym "(" ++ kw "type" ++ sym ")" ++ .sp ++ sym "{" ++ .hardline ++
+        intersperse .hardline (tcaseDocs cases) ++ .hardline ++ sym "}"
 def stmtDocs : List GStmt → List Doc
   | [] => []
   | s :: ss => stmtDoc s :: stmtDocs ss
